@@ -534,7 +534,12 @@ func c2UnixNano(c *Ctx) {
 				continue
 			}
 			recv := Args(cl)[0]
-			name := FuncKey(fn)
+			// (a site inside a function literal belongs to the function that holds the literal)
+			root := fn
+			for root.Parent() != nil {
+				root = root.Parent()
+			}
+			name := FuncKey(root)
 			slot := "UnixNano(" + Desc(recv) + ")"
 			// exemptions
 			if FStr(fn) == "(*go.uber.org/zap/zapcore.counter).IncCheckReset" {
@@ -546,7 +551,18 @@ func c2UnixNano(c *Ctx) {
 				c.Triv("R2.5", name, slot, cl.Pos(), "in range by construction (time.Unix(0, n))")
 				continue
 			}
-			if _, isParam := Strip(recv).(*ssa.Parameter); !isParam {
+			_, isParam := Strip(recv).(*ssa.Parameter)
+			if ld, isLd := Strip(recv).(*ssa.UnOp); isLd && !isParam && root != fn {
+				// a parameter of the enclosing function, captured by the literal
+				if fv, isFV := ld.X.(*ssa.FreeVar); isFV {
+					for _, q := range root.Params {
+						if q.Name() == fv.Name() {
+							isParam = true
+						}
+					}
+				}
+			}
+			if !isParam {
 				continue
 			}
 			if fn.Parent() == nil && fn.Object() != nil && !fn.Object().Exported() && len(c.CallersOf(fn.Object().(*types.Func).FullName())) == 0 {
